@@ -135,7 +135,7 @@ def run_sched(arg):
            base + '.pre', str(bound), str(rng)]
     out = {'prefix': prefix}
     try:
-        proc = subprocess.run(cmd, capture_output=True, text=True, timeout=60, env=env,
+        proc = subprocess.run(cmd, capture_output=True, text=True, timeout=20, env=env,
                               errors='replace')
         out['rc'] = proc.returncode
         out['stderr'] = proc.stderr[-300:]
@@ -233,7 +233,8 @@ def explore(run, exe, work, scenario, bound, max_runs, label):
         'distinct_final_states': len(final_states), 'exhausted_under_bound': exhausted}
     if sample_trace:
         run.samples.append({'label': label, 'first_decisions (n:choice:thread@where)': sample_trace})
-    return runs
+    run.extra['scheduler'][label]['hung_runs'] = hung
+    return runs if hung < 1 else -1
 
 
 def random_schedules(run, exe, work, scenario, count, label):
@@ -242,7 +243,14 @@ def random_schedules(run, exe, work, scenario, count, label):
     jobs = [(exe, work, clients, cycles, uses, env_events, [], 1 << 30,
              rng.randrange(1, 2 ** 62), 10 ** 6 + i) for i in range(count)]
     seen = set()
-    for job, res in run.pmap(run_sched, jobs):
+    results = []
+    for start in range(0, len(jobs), 256):
+        batch = list(run.pmap(run_sched, jobs[start:start + 256]))
+        results.extend(batch)
+        if sum(1 for _j, r in batch if r.get('timeout')) >= 3:
+            break     # hanging binary: do not sit out the watchdog for every schedule
+    count = len(results)
+    for job, res in results:
         decisions = [d.split(':', 2) for d in res['decisions']]
         choices = [int(d[1]) for d in decisions]
         seen.add(tuple(choices))
@@ -279,7 +287,7 @@ def main(tier: str) -> int:
         return run.finish('fixed model')
     builds = {
         'tsan': (['harness_mt.cc', 'ArbShell.cc'], 'tsan', []),
-        'sched': (['harness_mt.cc', 'ArbShell.cc'], 'plain', ['-DVSCHED']),
+        'sched': (['harness_mt.cc', 'ArbShell.cc'], 'plain', ['-DVSCHED', '-include', 'vmutex.hh']),
         'mw': (['mw_test.cc'], 'tsan', ['-DMW_HEADER="Dzn_MutexWrapped.hh"', '-DMW_NS=::Dzn']),
     }
     exes = {}
@@ -379,13 +387,28 @@ def main(tier: str) -> int:
 
     # ---- monitor 2: deterministic scheduler -------------------------------------------------
     if tier == 'quick':
-        explore(run, exes['sched'], work, (2, 1, 1, 1), bound=2, max_runs=2500, label='2clients_1cycle_pb2')
-        random_schedules(run, exes['sched'], work, (3, 1, 1, 2), 300, 'random_3clients')
+        # iterative context bounding: every schedule with one preemption first (small spaces,
+        # enumerated completely), then two preemptions within a run budget
+        plan = [('explore', (2, 1, 1, 1), 1, 1500, '2clients_1cycle_pb1'),
+                ('explore', (3, 1, 1, 1), 1, 1500, '3clients_1cycle_pb1'),
+                ('explore', (2, 1, 1, 1), 2, 1500, '2clients_1cycle_pb2'),
+                ('random', (3, 1, 1, 2), None, 300, 'random_3clients')]
     else:
-        explore(run, exes['sched'], work, (2, 1, 1, 1), bound=3, max_runs=60000, label='2clients_1cycle_pb3')
-        explore(run, exes['sched'], work, (2, 2, 1, 2), bound=2, max_runs=60000, label='2clients_2cycles_pb2')
-        explore(run, exes['sched'], work, (3, 1, 1, 1), bound=2, max_runs=60000, label='3clients_1cycle_pb2')
-        random_schedules(run, exes['sched'], work, (3, 2, 2, 4), 100000, 'random_3clients')
+        plan = [('explore', (2, 1, 1, 1), 1, 20000, '2clients_1cycle_pb1'),
+                ('explore', (3, 1, 1, 1), 1, 20000, '3clients_1cycle_pb1'),
+                ('explore', (2, 2, 2, 2), 1, 40000, '2clients_2cycles_pb1'),
+                ('explore', (3, 2, 1, 2), 1, 40000, '3clients_2cycles_pb1'),
+                ('explore', (2, 1, 1, 1), 2, 150000, '2clients_1cycle_pb2'),
+                ('explore', (3, 1, 1, 1), 2, 100000, '3clients_1cycle_pb2'),
+                ('explore', (2, 1, 1, 1), 3, 100000, '2clients_1cycle_pb3'),
+                ('random', (3, 2, 2, 4), None, 100000, 'random_3clients')]
+    for kind, scenario, bound, budget, label in plan:
+        if kind == 'explore':
+            if explore(run, exes['sched'], work, scenario, bound=bound, max_runs=budget,
+                       label=label) < 0:
+                break     # the binary hangs under the scheduler: reported, nothing more to learn
+        else:
+            random_schedules(run, exes['sched'], work, scenario, budget, label)
     for _ in range(min(3, run.observed.get('schedules_total', 0))):
         run.case(common.digest([_, 'sched']), True)
 
@@ -423,7 +446,8 @@ def replay(path: str) -> int:
         bad = []
         if 'schedule' in case:
             exe = os.path.join(work, 'exe_sched')
-            rc, err = cxxlab.compile_link(work, ['harness_mt.cc', 'ArbShell.cc'], exe, 'plain', ['-DVSCHED'])
+            rc, err = cxxlab.compile_link(work, ['harness_mt.cc', 'ArbShell.cc'], exe, 'plain',
+                                          ['-DVSCHED', '-include', 'vmutex.hh'])
             if rc != 0:
                 print(cxxlab.first_error(err))
                 bad.append('does not compile')
